@@ -622,3 +622,18 @@ def floors(tier, merged):
             ("deadlock_search_runs", c.get("runs", 0), 300),
             ("repoint_orders", c.get("repoint_orders", 0), 24),
             ("inconclusive_runs_max0", -c.get("inconclusive_runs", 0), 0)]
+
+
+def replay(case):
+    """Re-run one recorded fault case of part A (other parts record program and policy for manual re-execution)."""
+    boot.boot(lock_shim=True)
+    if "fault" not in case:
+        return []
+    world = World(case["cls"])
+    out = {"evaluations": 0, "keys": [], "violations": [], "samples": [], "counters": {}}
+    try:
+        fault_case(world, case["mode"], case["op"], case["path"], case["args"], tuple(case["fault"]), out,
+                   {"cls": case["cls"], "mode": case["mode"], "stratum": "fault_sweep"})
+    finally:
+        world.close()
+    return out["violations"]
